@@ -64,6 +64,24 @@ CHECKS = {
             {"run": "^TestC04Completion$", "n": {"quick": 8000, "thorough": 40000}},
         ],
     },
+    "C05": {
+        "level": "exploration",
+        "technique": "generated-schedule property testing of build counts (bursts) and model-stepped timelines on a fake clock (suppression window)",
+        "design_ref": "DESIGN.md section 6 C05",
+        "text": "(1) Bursts of 2-8 Gets on one missing/expired key with SyncRead on, arriving at generated points of a generated "
+                "call-out schedule; the builder must be invoked exactly once per case (success) or exactly once with every later "
+                "Get served from the failure cache or stale value (failure). (2) Sequential timelines of Gets at generated fake "
+                "instants constructed outside the failure cache's jitter band: no build and the same error object inside "
+                "[t_fail, t_fail+0.95F), exactly one build after t_fail+1.05F or with FailedUpdateTTL=-1. Sampled search.",
+        "note": "Conditions that would legitimately allow a second build (result not fresh any more, external ops, SkipRead, "
+                "negative TTL) are excluded by construction and counted as classes. Freshness in (2) is observed by a direct "
+                "backend read, not modelled.",
+        "assumptions": ["interleaving granularity = frontend call-outs", "failure cache jitter is the documented default 0.1"],
+        "jobs": [
+            {"run": "^TestC05Burst$", "n": {"quick": 6000, "thorough": 40000}},
+            {"run": "^TestC05Suppression$", "n": {"quick": 6000, "thorough": 40000}},
+        ],
+    },
     "C07": {
         "level": "exploration",
         "technique": "model-based stateful property testing (rapid) against a reference map on a fake clock",
